@@ -230,6 +230,7 @@ fn ascii<const N: usize>(buf: &mut [u8; N]) {
 /// verbatim, a longer one is reported absent, never an error, never a panic (String::try_from is
 /// fallible).  Text lengths 0..=300 (ASCII content, symbolic).
 #[kani::proof]
+#[kani::stub(core::str::count::count_chars, count_chars_reference)]
 #[kani::unwind(302)]
 pub fn c13_k_user_icon_keep_or_drop() {
     let mut buf: [u8; 300] = kani::any();
@@ -260,6 +261,7 @@ pub fn c13_k_user_icon_keep_or_drop() {
 /// two-byte characters (U+00E9) followed by at most one ASCII byte, 0..=300 bytes in all; at most
 /// 128 bytes => kept verbatim, more => absent; never an error, never a panic.
 #[kani::proof]
+#[kani::stub(core::str::count::count_chars, count_chars_reference)]
 #[kani::unwind(302)]
 pub fn c13_k_user_icon_multibyte_keep_or_drop() {
     let mut buf = [0u8; 300];
